@@ -282,7 +282,7 @@ func (r *runner) run() int {
 	}
 	ev.finish(time.Since(t0), r.prog.LoadSeconds)
 	evPath := filepath.Join(r.verif, "evidence", r.prop+".json")
-	if r.repo != "/repo" || r.only != "" {
+	if r.repo != "/repo" || r.only != "" || r.noReplay {
 		// scratch runs (mutation worktrees, single harness) do not overwrite the registered evidence
 		evPath = filepath.Join(os.TempDir(), fmt.Sprintf("symgo-evidence-%s-%d.json", r.prop, os.Getpid()))
 		defer os.Remove(evPath)
